@@ -188,7 +188,7 @@ Proof.
   destruct (m_duplicate_body T LATEST root_attrs m w) as [[[c|e] w1]| |] eqn:Eb; try discriminate E.
   - injection E as <- <-. exact (irpq_duplicate_body m _ _ _ S Eb).
   - injection E as <- <-. destruct (irpq_duplicate_body m _ _ _ S Eb) as (S1 & Sm1 & _).
-    destruct S as (A1 & A2 & A3 & A4 & A5 & A6). destruct S1 as (B1 & B2 & B3 & B4 & B5 & B6). destruct Sm1 as (C1 & C2 & C3).
+    destruct S as (A1 & A2 & A3 & A4 & A5 & A6). destruct S1 as (B1 & B2 & B3 & B4 & B5 & B6). destruct Sm1 as (C1 & C2 & C3 & C4 & C5 & C6).
     assert (Hm : forall k, PM k -> nth_opt (firstn (List.length (w_models w)) (w_models w1)) (N.to_nat k) = nth_opt (w_models w) (N.to_nat k)).
     { intros k Hk. destruct (A4 k Hk) as (xk & Hxk). rewrite nth_opt_firstn_lt by (eapply nth_opt_Some; eauto). auto. }
     assert (Hf : forall k, PF k -> nth_opt (firstn (List.length (w_files w)) (w_files w1)) (N.to_nat k) = nth_opt (w_files w) (N.to_nat k)).
@@ -199,7 +199,8 @@ Proof.
       * intros k Hk. rewrite (Hm k Hk). auto.
       * intros k Hk. rewrite (Hf k Hk). auto.
       * intros k fl Hk Hfl. apply nth_opt_firstn_some in Hfl as (Hfl & _). eapply B6; eauto.
-    + split; [exact C1|]. cbn [w_models w_files]. split; [exact Hm|exact Hf].
+    + split; [exact C1|]. cbn [w_models w_files]. split; [exact Hm|]. split; [exact Hf|].
+      unfold Grow; cbn [w_next w_models w_files]. rewrite !firstn_length. repeat split; lia.
 Qed.
 
 
